@@ -14,6 +14,7 @@ def reset():
     if not os.path.isdir(W):
         sh("git -C /repo worktree add --detach %s HEAD -q" % W)
     sh("git -C %s checkout -q -- . && git -C %s clean -fdq" % (W, W))
+    sh("git -C %s checkout -q --detach $(git -C /repo rev-parse HEAD)" % W)
 res = dict(dir=d, ok=False, steps={})
 t0 = time.time()
 reset()
